@@ -421,12 +421,14 @@ class BioConsert(RankAggAlgorithm, PairwiseBasedAlgorithm):
             # and do not need to be unified
             rankings_cons = [alg.compute_consensus_rankings(dataset, scoring_scheme, True).consensus_rankings[0]
                              for alg in self._starting_algorithms]
-            return BioConsert()._departure_rankings(Dataset(rankings_cons), scoring_scheme, False, False)
+            return BioConsert._bucket_ids_with_mapping(rankings_cons, dataset.mapping_elem_id)
 
         else:
 
             # get for each departure ranking the initial value of kemeny score with the input Dataset
-            bucket_ids: ndarray = dataset_to_consider.get_bucket_ids().transpose()
+            # the int IDs of the elements must be the ones of the initial dataset
+            bucket_ids: ndarray = BioConsert._bucket_ids_with_mapping(dataset_to_consider.rankings,
+                                                                      dataset.mapping_elem_id)
 
             # to be sure that all the departure rankings are different, use a dct
             distinct_rankings: Set[Tuple[int, ...]] = set()
@@ -445,6 +447,21 @@ class BioConsert(RankAggAlgorithm, PairwiseBasedAlgorithm):
                 # add ranking with all elements at position 0
                 rankings_departure = vstack((rankings_departure, zeros((1, dataset_to_consider.nb_elements))))
             return rankings_departure
+
+    @staticmethod
+    def _bucket_ids_with_mapping(rankings: List[Ranking], mapping_elem_id: Dict[Element, int]) -> ndarray:
+        """
+
+        :param rankings: complete rankings on the elements of the mapping
+        :param mapping_elem_id: the mapping element -> int ID to use
+        :return: a 2D ndarray, res[i][j] = bucket id in rankings[i] of the element whose ID is j
+        """
+        bucket_ids: ndarray = zeros((len(rankings), len(mapping_elem_id)), dtype=np_int32)
+        for id_ranking, ranking in enumerate(rankings):
+            for id_bucket, bucket in enumerate(ranking):
+                for elem in bucket:
+                    bucket_ids[id_ranking][mapping_elem_id[elem]] = id_bucket
+        return bucket_ids
 
     def get_full_name(self) -> str:
         return "BioConsert"
